@@ -143,7 +143,10 @@ def monotonic_factorization(arr: ArrayType1D) -> Tuple[int, np.ndarray, pd.Index
     pd_type = pandas_type_from_array(arr)
 
     if pd_type.kind == "M":
-        arr, pd_type = _convert_timestamp_to_tz_unaware(arr)
+        arr, orig_type = _convert_timestamp_to_tz_unaware(arr)
+        if not isinstance(orig_type, pa.DataType):
+            # a raw pyarrow type is not a pandas dtype: keep the ArrowDtype found above
+            pd_type = orig_type
 
     if getattr(pd_type, "kind", "O") not in "iufbmM":
         # strings / objects cannot be compared inside the jitted run detector:
